@@ -120,8 +120,21 @@ func c20State(v *V3View, target string) (string, string) {
 	if cfg == nil {
 		return "", ""
 	}
-	if r := uint64(cfg.Committed.Revision); r > 0 {
-		if tx := v.Tx(target, r); tx != nil {
+	// The spec updates revision and values in one step; the implementation writes the values and the record one
+	// after the other (and the device in between), so while a commit / apply is in flight the stored values may
+	// already be those of the transaction in flight: the invariant is judged when nothing is in flight.
+	commitInFlight, applyInFlight := false, false
+	for _, t := range v.Txs[target] {
+		p := phasesOf(t)
+		if p.cc == p3InProgress || p.rc == p3InProgress || uint64(cfg.Committed.Target) != uint64(cfg.Committed.Index) && uint64(cfg.Committed.Target) == uint64(t.ID.Index) && p.cc == p3Pending {
+			commitInFlight = true
+		}
+		if p.ca == p3InProgress || p.ra == p3InProgress {
+			applyInFlight = true
+		}
+	}
+	if r := uint64(cfg.Committed.Revision); r > 0 && !commitInFlight {
+		if tx := v.Tx(target, r); tx != nil && phasesOf(tx).cc == p3Complete && phasesOf(tx).rc != p3Complete {
 			for p, want := range tx.Values {
 				got, ok := cfg.Committed.Values[p]
 				if !ok || !sameValue3(got, want) {
@@ -130,8 +143,10 @@ func c20State(v *V3View, target string) (string, string) {
 			}
 		}
 	}
-	if a := uint64(cfg.Applied.Revision); a > 0 {
-		if tx := v.Tx(target, a); tx != nil {
+	// (a revision whose apply was aborted is named by Applied.Revision after the rollback of its successor
+	// although its values never reached the applied configuration: only an applied change is held to it)
+	if a := uint64(cfg.Applied.Revision); a > 0 && !applyInFlight {
+		if tx := v.Tx(target, a); tx != nil && phasesOf(tx).ca == p3Complete && phasesOf(tx).ra != p3Complete {
 			for p, want := range tx.Values {
 				got, ok := cfg.Applied.Values[p]
 				if !ok || !sameValue3(got, want) {
@@ -199,10 +214,22 @@ func c20Reference(v *V3View, target string, applied bool) (ref map[string]string
 	return ref, settled
 }
 
+// live3 gives the readable leaves of a stored value map: entries that are not deleted and not covered by a
+// tombstone above them that is as recent as they are (the committed values keep the children of a deleted subtree
+// next to its tombstone; whoever reads them prunes).
 func live3(m map[string]configv3.PathValue) map[string]string {
 	out := map[string]string{}
 	for p, v := range m {
-		if !v.Deleted {
+		if v.Deleted {
+			continue
+		}
+		covered := false
+		for tp, t := range m {
+			if t.Deleted && tp != p && devCovers(tp, p) && t.Index >= v.Index {
+				covered = true
+			}
+		}
+		if !covered {
 			out[p] = devValueText(gstr(string(v.Value.Bytes)))
 		}
 	}
@@ -217,6 +244,21 @@ func c20Idle(w *World, target string, requestsLeft int) (string, string) {
 	conn := string(w.conns.LiveConn(topoID(target)))
 	mastered := cfg != nil && cfg.Status.Mastership != nil && conn != "" && string(cfg.Status.Mastership.Master) == conn
 	synced := mastered && cfg.Status.State == configv3.ConfigurationStatus_SYNCHRONIZED && cfg.Applied.Term == cfg.Status.Mastership.Term
+	// a rollback of a change that is not the latest committed one waits, by design, until the later changes have
+	// been rolled back; what is stuck at or behind such a transaction is named as such
+	behind := func(index configv3.Index) string {
+		for _, t := range v.Txs[target] {
+			if t.ID.Index > index || t.Status.Phase != configv3.TransactionStatus_ROLLBACK || phasesOf(t).rc != p3Pending {
+				continue
+			}
+			for _, l := range v.Txs[target] {
+				if l.ID.Index > t.ID.Index && phasesOf(l).cc == p3Complete && phasesOf(l).rc != p3Complete {
+					return "/behind-a-rollback-that-waits-for-the-rollback-of-a-later-change"
+				}
+			}
+		}
+		return ""
+	}
 	for _, t := range v.Txs[target] {
 		p := phasesOf(t)
 		commitDone := func(s configv3.TransactionPhaseStatus_State) bool { return s == p3Complete || s == p3Failed }
@@ -240,10 +282,10 @@ func c20Idle(w *World, target string, requestsLeft int) (string, string) {
 		}
 		if synced {
 			if !applyDone(p.ca) {
-				return "termination/change-apply-never-finishes", fmt.Sprintf("nothing is pending any more, target connected, mastered and synchronized, transaction %d: %s; %s", t.ID.Index, tx3Text(t), cfg3Text(cfg))
+				return "termination/change-apply-never-finishes" + behind(t.ID.Index), fmt.Sprintf("nothing is pending any more, target connected, mastered and synchronized, transaction %d: %s; %s", t.ID.Index, tx3Text(t), cfg3Text(cfg))
 			}
 			if t.Status.Phase == configv3.TransactionStatus_ROLLBACK && p.rc == p3Complete && !applyDone(p.ra) {
-				return "termination/rollback-apply-never-finishes", fmt.Sprintf("nothing is pending any more, target connected, mastered and synchronized, transaction %d: %s; %s", t.ID.Index, tx3Text(t), cfg3Text(cfg))
+				return "termination/rollback-apply-never-finishes" + behind(t.ID.Index), fmt.Sprintf("nothing is pending any more, target connected, mastered and synchronized, transaction %d: %s; %s", t.ID.Index, tx3Text(t), cfg3Text(cfg))
 			}
 		}
 	}
@@ -286,9 +328,10 @@ func c20Scenarios(thorough bool) []*Scenario {
 	}
 	connected := connectAll("T1")
 	scs := []*Scenario{
-		{Name: "V1 two changes of one path, connected; one crash", Cfg: cfg, Init: connected, Requests: []SetReqOrCall{a1, a2}, CrashBudget: 1},
+		{Name: "V1q one change, connected; one crash", Cfg: cfg, Init: connected, Requests: []SetReqOrCall{a1}, CrashBudget: 1},
+		{Name: "V1o two changes of one path, target not connected (commits only); one crash", Cfg: cfg, Requests: []SetReqOrCall{a1, a2}, CrashBudget: 1},
 		{Name: "V1i two changes of one path, connected; one interleaving", Cfg: cfg, Init: connected, Requests: []SetReqOrCall{a1, a2}, InterleaveBudget: 1},
-		{Name: "V2 change and its rollback, connected; one crash", Cfg: cfg, Init: connected, Requests: []SetReqOrCall{a1, rb(1)}, CrashBudget: 1},
+		{Name: "V2o change and its rollback, target not connected (commits only); one crash", Cfg: cfg, Requests: []SetReqOrCall{a1, rb(1)}, CrashBudget: 1},
 		{Name: "V2i change and its rollback, connected; one interleaving", Cfg: cfg, Init: connected, Requests: []SetReqOrCall{a1, rb(1)}, InterleaveBudget: 1},
 		{Name: "V3 two changes, rollback of the second then of the first, connected", Cfg: cfg, Init: connected, Requests: []SetReqOrCall{a1, a2, rb(2), rb(1)}},
 		{Name: "V3r two changes, rollback of the first requested before that of the second, connected", Cfg: cfg, Init: connected, Requests: []SetReqOrCall{a1, a2o, rb(1), rb(2)}},
@@ -301,17 +344,29 @@ func c20Scenarios(thorough bool) []*Scenario {
 			connected(w)
 			w.devices["T1"].refuse = map[string]codes.Code{"/cont/leafA=" + devValueText(gstr("a")): codes.InvalidArgument}
 		}, Requests: []SetReqOrCall{a1, a2o, rb(1)}},
-		{Name: "V6 two changes, connection lost and re-established, device restart", Cfg: cfg, Init: connected, Requests: []SetReqOrCall{a1, a2o},
-			Faults: []FaultSpec{faultConnDown("T1"), faultConnUp("T1"), faultDeviceRestart("T1")}, FaultBudget: 2},
-		{Name: "V7 change, subtree delete, change below it; device restart (re-synchronisation)", Cfg: cfg, Init: connected,
+		{Name: "V6 one change, connection lost and re-established", Cfg: cfg, Init: connected, Requests: []SetReqOrCall{a1},
+			Faults: []FaultSpec{faultConnDown("T1"), faultConnUp("T1")}, FaultBudget: 2},
+		{Name: "V7 change of two leaves, subtree delete; device restart (re-synchronisation)", Cfg: cfg, Init: connected,
 			Requests: []SetReqOrCall{appendChange3("append 1: leafA=a sub/leafC=c", "T1", "/cont/leafA", "a", "/cont/sub/leafC", "c"),
-				appendChange3("append 2: delete /cont/sub", "T1", "/cont/sub", "<delete>"), appendChange3("append 3: sub/leafB... leafA2=z", "T1", "/cont/leafA2", "z")},
-			Faults: []FaultSpec{faultDeviceRestart("T1"), faultConnDown("T1"), faultConnUp("T1")}, FaultBudget: 3},
+				appendChange3("append 2: delete /cont/sub", "T1", "/cont/sub", "<delete>")},
+			Faults: []FaultSpec{faultDeviceRestart("T1")}, FaultBudget: 1},
 		{Name: "V8 change appended while the target is not connected, then it connects", Cfg: cfg, Requests: []SetReqOrCall{a1, a2o},
 			Faults: []FaultSpec{faultConnUp("T1")}, FaultBudget: 1},
+		{Name: "V8i change appended while the target connects (mastership, synchronisation and transaction controllers interleaved at their store writes)", Cfg: cfg, Requests: []SetReqOrCall{a1},
+			Faults: []FaultSpec{faultConnUp("T1")}, FaultBudget: 1, InterleaveBudget: 1},
 	}
 	if thorough {
 		scs = append(scs,
+			&Scenario{Name: "V1 two changes of one path, connected; one crash", Cfg: cfg, Init: connected, Requests: []SetReqOrCall{a1, a2}, CrashBudget: 1},
+			&Scenario{Name: "V2 change and its rollback, connected; one crash", Cfg: cfg, Init: connected, Requests: []SetReqOrCall{a1, rb(1)}, CrashBudget: 1},
+			&Scenario{Name: "V6r two changes, device restart", Cfg: cfg, Init: connected, Requests: []SetReqOrCall{a1, a2o},
+				Faults: []FaultSpec{faultDeviceRestart("T1")}, FaultBudget: 1},
+			&Scenario{Name: "V6t two changes, connection lost and re-established, device restart", Cfg: cfg, Init: connected, Requests: []SetReqOrCall{a1, a2o},
+				Faults: []FaultSpec{faultConnDown("T1"), faultConnUp("T1"), faultDeviceRestart("T1")}, FaultBudget: 2},
+			&Scenario{Name: "V7t change, subtree delete, change beside it; device restart (re-synchronisation)", Cfg: cfg, Init: connected,
+				Requests: []SetReqOrCall{appendChange3("append 1: leafA=a sub/leafC=c", "T1", "/cont/leafA", "a", "/cont/sub/leafC", "c"),
+					appendChange3("append 2: delete /cont/sub", "T1", "/cont/sub", "<delete>"), appendChange3("append 3: leafA2=z", "T1", "/cont/leafA2", "z")},
+				Faults: []FaultSpec{faultDeviceRestart("T1")}, FaultBudget: 1},
 			&Scenario{Name: "V1c two changes of one path, connected; crash and interleaving", Cfg: cfg, Init: connected, Requests: []SetReqOrCall{a1, a2}, CrashBudget: 1, InterleaveBudget: 1},
 			&Scenario{Name: "V3i two changes and their rollbacks, connected; one interleaving", Cfg: cfg, Init: connected, Requests: []SetReqOrCall{a1, a2, rb(2), rb(1)}, InterleaveBudget: 1},
 			&Scenario{Name: "V3c two changes and their rollbacks, connected; one crash", Cfg: cfg, Init: connected, Requests: []SetReqOrCall{a1, a2, rb(2), rb(1)}, CrashBudget: 1},
@@ -342,7 +397,7 @@ func checkC20(rc *RunCtx) *Report {
 			sc := sc
 			sc.Mode = QWorkSet
 			if sc.MaxStates == 0 {
-				sc.MaxStates = 250000
+				sc.MaxStates = 400000
 			}
 			x := &Explorer{RC: rc, Rep: rep, Sc: sc}
 			views := map[uint64]*V3View{}
@@ -357,10 +412,10 @@ func checkC20(rc *RunCtx) *Report {
 				views[s.key] = v
 				return v
 			}
-			cands := map[string]*c20Cand{}
+			cands := map[string][]*c20Cand{}
 			note := func(class, what string, s *E1State, kind string) {
-				if c, ok := cands[class]; !ok || s.depth < c.state.depth {
-					cands[class] = &c20Cand{class, what, s, kind}
+				if len(cands[class]) < 6 { // breadth-first: the first ones are the shallowest
+					cands[class] = append(cands[class], &c20Cand{class, what, s, kind})
 				}
 			}
 			judged, idles, panics := 0, 0, 0
@@ -411,72 +466,102 @@ func checkC20(rc *RunCtx) *Report {
 			}
 			sort.Strings(classes)
 			for _, cl := range classes {
-				c := cands[cl]
-				trace := c.state.Trace()
-				var last, prev *V3View
-				failed := ""
-				why := x.RealizeExact(trace, c.kind == "idle", func(i int, t Trans, res *StepResult) {
-					if c.kind != "transition" {
-						return
+				done := false
+				var lastWhy string
+				for _, c := range cands[cl] {
+					if done {
+						break
 					}
-					prev, last = last, x.W.View3()
-					if prev == nil {
-						return
-					}
-					if res != nil && res.Panic != "" && strings.HasPrefix(cl, "panic/") {
-						failed = res.Panic
-					}
-					if c2, w2 := c20Transition(prev, last, "T1"); c2 == cl {
-						failed = w2
-					}
-				})
-				if why == "" {
-					switch c.kind {
-					case "state":
-						if c2, w2 := c20State(x.W.View3(), "T1"); c2 == cl {
+					trace := c.state.Trace()
+					var last, prev *V3View
+					failed := ""
+					why := x.RealizeExact(trace, c.kind == "idle", func(i int, t Trans, res *StepResult) {
+						if c.kind != "transition" {
+							return
+						}
+						prev, last = last, x.W.View3()
+						if prev == nil {
+							return
+						}
+						if res != nil && res.Panic != "" && strings.HasPrefix(cl, "panic/") {
+							failed = res.Panic
+						}
+						if c2, w2 := c20Transition(prev, last, "T1"); c2 == cl {
 							failed = w2
 						}
-					case "idle":
-						if c2, w2 := c20Idle(x.W, "T1", len(sc.Requests)-c.state.env.NextReq); c2 == cl {
-							failed = w2
-						}
-					}
-				}
-				if (why != "" || failed == "") && c.kind == "idle" {
-					// second attempt: the requests of the scenario one after the other, each run to idle under the
-					// default schedule (oldest token first), which is an execution of the exact model by construction
-					w := x.W
-					w.Restore(x.init.snap)
-					var sched []string
-					q := []Token{}
-					for _, r := range sc.Requests {
-						if r.Enabled != nil && !r.Enabled(w) {
-							break
-						}
-						call := r.Call(w)
-						if !call.Done {
-							call.Cancel()
-						}
-						sched = append(sched, "client:"+r.Name)
-						q = append(q, w.Settle()...)
-						_, q = w.Drain(q, drainLimit, func(t Token, r StepResult) {
-							if r.Effects > 0 {
-								sched = append(sched, t.Ctrl+"("+t.ID+")")
+					})
+					how := fmt.Sprintf("trace of %d moves replayed under exact queues: %v", len(trace), c.state.TraceStrings())
+					if why == "" {
+						switch c.kind {
+						case "state":
+							if c2, w2 := c20State(x.W.View3(), "T1"); c2 == cl {
+								failed = w2
 							}
-						})
+						case "idle":
+							if c2, w2 := c20Idle(x.W, "T1", len(sc.Requests)-c.state.env.NextReq); c2 == cl {
+								failed = w2
+							}
+						}
 					}
-					if c2, w2 := c20Idle(w, "T1", 0); c2 == cl && len(q) == 0 {
-						why, failed = "", w2
-						c.what = fmt.Sprintf("scenario %q: %s [requests submitted one after the other, each run to idle oldest-token-first: %v]", sc.Name, w2, sched)
+					if (why != "" || failed == "") && c.kind == "idle" {
+						// second attempt: the requests of the scenario one after the other, each run to idle under the
+						// default schedule (oldest token first), which is an execution of the exact model by construction
+						w := x.W
+						w.Restore(x.init.snap)
+						var sched []string
+						q := []Token{}
+						for _, r := range sc.Requests {
+							if r.Enabled != nil && !r.Enabled(w) {
+								break
+							}
+							call := r.Call(w)
+							if !call.Done {
+								call.Cancel()
+							}
+							sched = append(sched, "client:"+r.Name)
+							q = append(q, w.Settle()...)
+							_, q = w.Drain(q, drainLimit, func(t Token, r StepResult) {
+								if r.Effects > 0 {
+									sched = append(sched, t.Ctrl+"("+t.ID+")")
+								}
+							})
+						}
+						if c2, w2 := c20Idle(w, "T1", 0); c2 == cl && len(q) == 0 {
+							why, failed = "", w2
+							c.what = fmt.Sprintf("scenario %q: %s", sc.Name, w2)
+							how = fmt.Sprintf("requests submitted one after the other, each run to idle oldest-token-first: %v", sched)
+						}
+					}
+					if (why != "" || failed == "") && c.kind != "transition" {
+						// third attempt: search for a schedule of the exact queue model that reaches the same world
+						// content (restricted to the candidate's cone) and run it for real
+						conf := x.ConfirmExact(c.state, ConfirmOpts{NeedIdle: c.kind == "idle", MaxNodes: 300000, Check: func(w *World) (bool, string) {
+							if c.kind == "idle" {
+								c2, w2 := c20Idle(w, "T1", len(sc.Requests)-c.state.env.NextReq)
+								return c2 == cl, w2
+							}
+							c2, w2 := c20State(w.View3(), "T1")
+							return c2 == cl, w2
+						}})
+						if conf.Confirmed {
+							why, failed = "", conf.Detail
+							how = "exact-queue schedule found by search and run for real: " + strings.Join(schedStrings(conf.Schedule), " ")
+							trace = conf.Schedule
+						} else if why == "" {
+							why = "exact search: " + conf.Reason
+						}
+					}
+					if why == "" && failed != "" {
+						done = true
+						confirmed++
+						rep.Violate(cl, c.what+" ["+how+"]", map[string]interface{}{"kind": "e1", "scenario": sc.Name, "trace": trace})
+					} else {
+						lastWhy = fmt.Sprintf("%s: not confirmed under exact queues (%s); candidate: %s; trace %v", cl, why, c.what, c.state.TraceStrings())
 					}
 				}
-				if why == "" && failed != "" {
-					confirmed++
-					rep.Violate(cl, c.what+fmt.Sprintf(" [trace of %d moves replayed under exact queues: %v]", len(trace), c.state.TraceStrings()),
-						map[string]interface{}{"kind": "e1", "scenario": sc.Name, "trace": trace})
-				} else {
+				if !done {
 					unconfirmed++
-					notes = append(notes, fmt.Sprintf("%s: not confirmed under exact queues (%s); candidate: %s; trace %v", cl, why, c.what, c.state.TraceStrings()))
+					notes = append(notes, lastWhy)
 				}
 			}
 			out.Numbers["states"] += int64(x.States)
